@@ -227,6 +227,7 @@ func verifH_C08(d *verifDesc) {
 	v := d.newObj().(verifTL1)
 	verifAllocLimit(len(b))
 	_, err := verifReadTL1(v, boxed, b)
+	verifAllocCheck(v)
 	if err != nil {
 		verifCover("reject")
 		return
@@ -239,6 +240,7 @@ func verifH_C08t2(d *verifDesc) {
 	v := d.newObj().(verifTL2)
 	verifAllocLimit(len(b))
 	_, err := v.ReadTL2(b, nil)
+	verifAllocCheck(v)
 	if err != nil {
 		verifCover("reject")
 		return
